@@ -34,6 +34,12 @@ import (
 // acquisition of the same mutex in the run); sync.WaitGroup and atomic are not modelled - a run that reaches
 // one of those is refused by the interpreter (unsupported); sync.Map operations are not recorded as accesses.
 
+// RaceDump, when set, receives one line per conflicting pair of segments (debugging aid).
+var RaceDump func(string)
+
+// RaceDumpPos: with RaceDump set, every recorded access at a source position containing this text is printed.
+var RaceDumpPos string
+
 type cellKey struct {
 	obj  interface{} // *Object or *MapObj
 	path string
@@ -45,8 +51,8 @@ type cellAcc struct {
 }
 
 type chanHB struct {
-	sendAfter  []int // segment that starts after the k-th send
-	recvBefore []int // segment that ends at the k-th receive
+	sendAfter  [][]int // segments that start after the k-th send (one per arm when both arms of a branch send)
+	recvBefore []int   // segment that ends at the k-th receive
 }
 
 type raceState struct {
@@ -58,6 +64,7 @@ type raceState struct {
 	chans map[*ChanObj]*chanHB
 	// released: per mutex, the segments that ended at a release
 	released map[cellKey][]int
+	events   int // synchronisation events so far
 }
 
 func (in *Interp) race() *raceState {
@@ -103,36 +110,47 @@ func (in *Interp) raceGo(parent, child int) {
 		return
 	}
 	rs := in.race()
+	rs.events++
 	old, _ := rs.cut(parent)
 	c := rs.newSeg(child)
 	rs.cur[child] = c
 	rs.edges[old] = append(rs.edges[old], c)
 }
 
-// raceSend returns the segment that ended at the send (stored with the item).
-func (in *Interp) raceSend(c *ChanObj) int {
+// raceSend returns the segment that ended at the send (stored with the item). merged: the send completes an
+// item the other arm of a branch has already sent (one send, made at a different point of each arm).
+func (in *Interp) raceSend(c *ChanObj, merged bool) int {
 	if !in.RaceDetect {
 		return -1
 	}
 	rs := in.race()
+	rs.events++
 	old, nw := rs.cut(in.curGor())
 	h := rs.chans[c]
 	if h == nil {
 		h = &chanHB{}
 		rs.chans[c] = h
 	}
-	h.sendAfter = append(h.sendAfter, nw)
+	if merged && len(h.sendAfter) > 0 {
+		k := len(h.sendAfter) - 1
+		h.sendAfter[k] = append(h.sendAfter[k], nw)
+	} else {
+		h.sendAfter = append(h.sendAfter, []int{nw})
+	}
 	return old
 }
 
-func (in *Interp) raceRecv(c *ChanObj, sendSeg int) {
+func (in *Interp) raceRecv(c *ChanObj, sendSegs []int) {
 	if !in.RaceDetect {
 		return
 	}
 	rs := in.race()
+	rs.events++
 	old, nw := rs.cut(in.curGor())
-	if sendSeg >= 0 {
-		rs.edges[sendSeg] = append(rs.edges[sendSeg], nw)
+	for _, s := range sendSegs {
+		if s >= 0 {
+			rs.edges[s] = append(rs.edges[s], nw)
+		}
 	}
 	h := rs.chans[c]
 	if h == nil {
@@ -163,6 +181,7 @@ func (in *Interp) raceLock(m Value, acquire bool) {
 			}
 		}
 	}
+	rs.events++
 	old, nw := rs.cut(in.curGor())
 	if rs.released == nil {
 		rs.released = map[cellKey][]int{}
@@ -176,6 +195,54 @@ func (in *Interp) raceLock(m Value, acquire bool) {
 			rs.released[k] = append(rs.released[k], old)
 		}
 	}
+}
+
+// Branches. The two arms of a symbolic branch are executed one after the other; a synchronisation event inside
+// an arm cuts the segment for that arm only. raceFork notes the segment the branch starts in, raceArm returns the
+// segment the first arm ended in and puts the second arm back at the start, raceJoin continues after the branch in
+// a segment that follows the ends of both arms (if either arm cut anything). Edges are not guarded: an event that
+// happens on one arm only still orders unconditionally, which can only add order.
+func (in *Interp) raceFork() int {
+	if !in.RaceDetect {
+		return -1
+	}
+	return in.race().seg(in.curGor())
+}
+
+func (in *Interp) raceArm(start int) int {
+	if !in.RaceDetect {
+		return -1
+	}
+	rs := in.race()
+	g := in.curGor()
+	end := rs.seg(g)
+	rs.cur[g] = start
+	return end
+}
+
+func (in *Interp) raceJoin(start, endT int) {
+	if !in.RaceDetect {
+		return
+	}
+	rs := in.race()
+	g := in.curGor()
+	endE := rs.seg(g)
+	if endT == start && endE == start {
+		return
+	}
+	j := rs.newSeg(g)
+	rs.edges[endT] = append(rs.edges[endT], j)
+	rs.edges[endE] = append(rs.edges[endE], j)
+	rs.cur[g] = j
+}
+
+// raceEvents: number of synchronisation events so far (alternatives of a union value must not contain any:
+// they are not tracked per alternative).
+func (in *Interp) raceEvents() int {
+	if !in.RaceDetect || in.raceSt == nil {
+		return 0
+	}
+	return in.raceSt.events
 }
 
 func pathKey(p []Sel) string {
@@ -198,15 +265,53 @@ func (in *Interp) raceAccess(p Value, write bool) {
 	switch pv := p.(type) {
 	case *PtrVal:
 		if pv.Obj != nil {
-			in.raceCell(cellKey{pv.Obj, pathKey(pv.Path)}, in.Guard(), write)
+			in.racePath(pv.Obj, pv.Obj.Val, pv.Path, "", in.Guard(), write)
 		}
 	case *UnionVal:
 		for _, al := range pv.Alts {
 			if ap, ok := al.V.(*PtrVal); ok && ap.Obj != nil {
-				in.raceCell(cellKey{ap.Obj, pathKey(ap.Path)}, in.St.And(in.Guard(), al.G), write)
+				in.racePath(ap.Obj, ap.Obj.Val, ap.Path, "", in.St.And(in.Guard(), al.G), write)
 			}
 		}
 	}
+}
+
+// racePath walks an access path; a symbolic index into an array of at most 64 elements becomes one access per
+// element under "index == k" (so that it meets the accesses made with concrete indices), anything else that
+// cannot be resolved makes the rest of the path a wildcard cell of its own (compared with nothing but itself).
+func (in *Interp) racePath(obj *Object, cur Value, path []Sel, prefix string, g *smt.Term, write bool) {
+	if g.IsFalse() {
+		return
+	}
+	for i, s := range path {
+		if s.Sym == nil {
+			prefix += "." + strconv.Itoa(s.Idx)
+			switch x := cur.(type) {
+			case *StructVal:
+				if s.Idx < len(x.F) {
+					cur = x.F[s.Idx]
+					continue
+				}
+			case *ArrayVal:
+				if s.Idx >= 0 && s.Idx < len(x.E) {
+					cur = x.E[s.Idx]
+					continue
+				}
+			}
+			cur = nil
+			continue
+		}
+		if a, ok := cur.(*ArrayVal); ok && len(a.E) <= 64 {
+			for k := range a.E {
+				gk := in.St.And(g, in.St.Eq(s.Sym, in.St.BV(uint64(k), s.Sym.W)))
+				in.racePath(obj, a.E[k], path[i+1:], prefix+"."+strconv.Itoa(k), gk, write)
+			}
+			return
+		}
+		in.raceCell(cellKey{obj, prefix + pathKey(path[i:])}, g, write)
+		return
+	}
+	in.raceCell(cellKey{obj, prefix}, g, write)
 }
 
 // raceMap records an operation on a map (a map is one cell).
@@ -234,6 +339,9 @@ func (in *Interp) raceCell(k cellKey, g *smt.Term, write bool) {
 	}
 	rs := in.race()
 	s := rs.seg(in.curGor())
+	if RaceDump != nil && RaceDumpPos != "" && strings.Contains(in.posStr(in.curPos), RaceDumpPos) {
+		RaceDump(fmt.Sprintf("access %s write=%v g%d seg%d at %s", k.describe(), write, in.curGor(), s, in.posStr(in.curPos)))
+	}
 	m := rs.acc[k]
 	if m == nil {
 		m = map[int]*cellAcc{}
@@ -283,7 +391,7 @@ func (in *Interp) RaceObligations() (shared int, pairs int) {
 	for c, h := range rs.chans {
 		for k, rb := range h.recvBefore {
 			if j := k + c.Cap; j < len(h.sendAfter) {
-				rs.edges[rb] = append(rs.edges[rb], h.sendAfter[j])
+				rs.edges[rb] = append(rs.edges[rb], h.sendAfter[j]...)
 			}
 		}
 	}
@@ -339,7 +447,18 @@ func (in *Interp) RaceObligations() (shared int, pairs int) {
 					continue
 				}
 				if reachFrom(s1)[s2] || reachFrom(s2)[s1] {
+					if RaceDump != nil {
+						a, b := s1, s2
+						if !reachFrom(s1)[s2] {
+							a, b = s2, s1
+						}
+						RaceDump("path " + rs.pathStr(a, b))
+						RaceDump(fmt.Sprintf("ordered   %s: g%d seg%d (w@%s r@%s) / g%d seg%d (w@%s r@%s)", k.describe(), rs.segG[s1], s1, a1.wpos, a1.rpos, rs.segG[s2], s2, a2.wpos, a2.rpos))
+					}
 					continue
+				}
+				if RaceDump != nil {
+					RaceDump(fmt.Sprintf("UNORDERED %s: g%d seg%d (w@%s r@%s) / g%d seg%d (w@%s r@%s)", k.describe(), rs.segG[s1], s1, a1.wpos, a1.rpos, rs.segG[s2], s2, a2.wpos, a2.rpos))
 				}
 				pairs++
 				if first == "" {
@@ -361,4 +480,31 @@ func (in *Interp) RaceObligations() (shared int, pairs int) {
 		in.AddObligation(&Obligation{Kind: "assert", Tag: "race-free:" + k.describe() + " [" + first + "]", Pos: "race", Guard: st.T, Cond: st.Not(bad)})
 	}
 	return shared, pairs
+}
+
+// pathStr: one happens-before path from segment a to segment b (debugging aid).
+func (rs *raceState) pathStr(a, b int) string {
+	prev := map[int]int{a: -1}
+	q := []int{a}
+	for len(q) > 0 {
+		x := q[0]
+		q = q[1:]
+		if x == b {
+			break
+		}
+		for _, y := range rs.edges[x] {
+			if _, ok := prev[y]; !ok {
+				prev[y] = x
+				q = append(q, y)
+			}
+		}
+	}
+	var out []string
+	for x := b; x != -1; x = prev[x] {
+		out = append([]string{fmt.Sprintf("g%d:s%d", rs.segG[x], x)}, out...)
+		if _, ok := prev[x]; !ok {
+			break
+		}
+	}
+	return strings.Join(out, " -> ")
 }
